@@ -85,7 +85,7 @@ def run(ctx: Ctx):
     import_amisc()
     from amisc import System
     rng = ctx.rng
-    tmp = WORK / 'c13_tmp'
+    tmp = WORK / f'c13_tmp_{os.getpid()}'
     shutil.rmtree(tmp, ignore_errors=True)
     tmp.mkdir(parents=True, exist_ok=True)
     cwd0 = os.getcwd()
@@ -103,7 +103,7 @@ def run(ctx: Ctx):
 
             def fresh(root):
                 r = random.Random(sys_seed)
-                return systems.persist_chain_system(r, ncomp=r.randint(1, 2), name='cr', root_dir=root, with_alpha=True, costs=(kind_sys == 'costs'))
+                return systems.persist_chain_system(r, ncomp=r.randint(1, 2), name='cr', root_dir=root, with_alpha=True, costs=(kind_sys == 'costs'), grid_opts=True)
             # ---- uninterrupted reference, counting the calls
             ref_sys, spec = fresh(None)
             with injector(None) as inj0, c12.reseeding(np_seed):
@@ -173,10 +173,26 @@ def run(ctx: Ctx):
                     cost_only = [d for d in diffs if d.endswith('.costs') or d.endswith('.model_costs')]
                     hist_same_choices = [(h['component'], h['alpha'], h['beta']) for h in st['history']] == [(h['component'], h['alpha'], h['beta']) for h in ref['history']]
                     other = [d for d in diffs if d not in cost_only and d != 'history']
+                    if 'history' in diffs and hist_same_choices:
+                        # the error indicator is a difference of nearly equal predictions: compare it to rounding, everything else exactly
+                        hc = all(a['num_evals'] == b['num_evals'] and a['added_cost'] == b['added_cost'] for a, b in zip(st['history'], ref['history']))
+                        he = all(systems.floats_close([a['added_error']], [b['added_error']], rtol=1e-9, atol=1e-13) for a, b in zip(st['history'], ref['history']))
+                        if hc and he:
+                            diffs = [d for d in diffs if d != 'history']
+                        elif hc:
+                            other.append('history.added_error')
+                    store_phase = kind in ('grid_set', 'grid_impute', 'interp_refine')
+                    if (not hist_same_choices or other) and store_phase and any(d.endswith('.costs') for d in diffs):
+                        # recorded finding F5a and its consequence: indices whose data were stored before the interruption are charged fewer
+                        # evaluations on resume; the refinement criterion divides by that cost, so later choices may follow the changed accounts.
+                        # What the saved state must still satisfy (loads, invariants, truthful data, resumes, finite predictions) was checked above.
+                        ctx.violate('C13:cost-accounting-differs-after-store-phase-interruption',
+                                    f'{kind} #{i}: cost accounts differ after resuming ({[d for d in diffs if d.endswith(".costs")]}), and the refinement '
+                                    f'choices that divide by them follow', case)
+                        continue
                     if not hist_same_choices or other:
                         ctx.violate('C13:resumed-run-differs', f'{kind} #{i}: after resuming, {other or "refinement choices"} differ from the uninterrupted run', case)
                     elif cost_only or 'history' in diffs:
-                        store_phase = kind in ('grid_set', 'grid_impute', 'interp_refine')
                         ctx.violate('C13:cost-accounting-differs-after-store-phase-interruption' if store_phase else 'C13:cost-accounting-differs',
                                     f'{kind} #{i}: same surrogate after resuming, but {cost_only + (["history (num_evals/added_cost)"] if "history" in diffs else [])} differ '
                                     f'from the uninterrupted run', case)
